@@ -104,9 +104,9 @@ prop('C07', level='proof', modules=['Polyseed.Props.C07'], suites=['tables', 'fi
      note=PROOF_NOTE + 'Pinned/ is trusted to be the published lists (generated once from the pinned commit). NFKD/NFC facts are about Unicode data outside the repository: executed exhaustively with unicodedata and utf8proc.',
      technique='Lean 4 proof by kernel evaluation over the regenerated tables (certificate checkers proved sound) + exhaustive normaliser execution',
      assumptions=['plain char signed (model parameter sgn = true); see C19'])
-prop('C08', level='proof', modules=['Polyseed.Props.C08'], suites=['find'],
+prop('C08', level='proof', modules=['Polyseed.Props.C08', 'Polyseed.Props.C08Phrase'], suites=['find'],
      api=dict(cone={'decode': 'status', 'decodex': 'status', 'decoden': 'status'}, weights=dict(variants=8, badtokens=4, crafted=2, roundtrip=1)),
-     text='Theorem find_iff_rule: in ALL ten languages, for EVERY token (NUL-free byte string) and every index, the lookup returns that index if and only if Rule accepts the token for that word, where Rule (written without the code) is: exact word; or, in the six abbreviating languages, a prefix of at least four letters; compared on the accent-stripped forms in Spanish and French. Built from: comparer_zero_iff (zero sets of the four comparators; compare_*_noaccent = compare_* on stripped strings, an identity), findWord_sound (bsearch / linear search return only indices that compare equal), and the per-table bsearch decision-tree certificate extended to EVERY admissible abbreviation of every word (kernel-evaluated, ~1.5 min per list in parallel). Corollaries find_only_by_rule, find_exact_iff, too_short, continues_otherwise. S-find replays every prefix length x accent subset x continuation per word on the real code against the model and an independent Python rendering of the rule; S-api does it through the API with real NFKD. Open finding D6: strip removes every byte >= 0x80, not only combining accents - stated in the theorem as it is, listed as KNOWN-FINDING.',
+     text='Theorem find_iff_rule: in ALL ten languages, for EVERY token (NUL-free byte string) and every index, the lookup returns that index if and only if Rule accepts the token for that word, where Rule (written without the code) is: exact word; or, in the six abbreviating languages, a prefix of at least four letters; compared on the accent-stripped forms in Spanish and French. Built from: comparer_zero_iff (zero sets of the four comparators; compare_*_noaccent = compare_* on stripped strings, an identity), findWord_sound (bsearch / linear search return only indices that compare equal), and the per-table bsearch decision-tree certificate extended to EVERY admissible abbreviation of every word (kernel-evaluated, ~1.5 min per list in parallel). Corollaries find_only_by_rule, find_exact_iff, too_short, continues_otherwise. Lifted to phrases (C08Phrase): findAll_of_accepts, decodeExplicit_of_tokens and variant_decodes_same - ANY 16 tokens the rule accepts position by position for the words of a phrase (abbreviated, accents dropped or typed, mixed) decode explicitly to exactly the status, seed and library state of the unaltered phrase, for every coin and allocation outcome; accepts_self and two kernel-evaluated examples show the premises are met. S-find replays every prefix length x accent subset x continuation per word on the real code against the model and an independent Python rendering of the rule; S-api does it through the API with real NFKD. Open finding D6: strip removes every byte >= 0x80, not only combining accents - stated in the theorem as it is, listed as KNOWN-FINDING.',
      note=PROOF_NOTE + 'strip = removal of all bytes >= 0x80; it coincides with "accents dropped" on NFKD Latin text only (D6).',
      technique='Lean 4 proof (comparator zero sets + search soundness + kernel-evaluated decision-tree certificate over all admissible abbreviations) + exhaustive per-word correspondence',
      assumptions=['tokens are NUL-free byte strings (what the tokeniser delivers)'])
